@@ -1,6 +1,6 @@
 \* the finalize path as the code has it (status.providerID only, launch cache not consulted): violates NoLeak
 \* (known finding F-C09-1: provider Create ok, status patch fails, NodeClaim deleted before the next reconcile)
-CONSTANTS Pods = {"p1"}  Tol = {}
+CONSTANTS Pods = {"p1"}  Tol = {}  Late = {}
   Starts = {"unpersisted"}
   VaOwners = {"-"}  TGPs <- BoolF  Instants <- BoolF
   MaxFaults = 0  MaxRestarts = 0  MaxLen = 1000  MaxSpont = 99
